@@ -1,13 +1,161 @@
 /-
   Avt.Spec.C10 — oracle of property C10 (decidable predicates evaluated on implementation states;
   the same definitions the theorems in Avt/Props/C10.lean are stated with).
+
+  C10: resizing the primary screen (unlimited scrollback) re-wraps soft-wrapped rows without changing
+  content: every logical line above the cursor's logical line is unchanged, the cursor stays in the
+  same logical line with everything before it intact and — when it was on a character of the text —
+  on that same character; logical lines after the cursor are unchanged or cut short, never altered,
+  reordered or invented.
+
+  Covered events: `ev.kind = .resize` with the primary screen active and `scrollbackLimit = none`.
+  Chains of resizes are covered because every resize event of a history is checked.
 -/
 import Avt.Spec.Base
 
 namespace Avt.Spec.C10
 open Avt Avt.Spec
 
-def checkStep (_ev : StepEv) : List Verdict := []
+/-! ### logical lines -/
+
+/-- remove trailing default cells (blank, default pen) -/
+def stripDefault (cs : List Cell) : List Cell := (cs.reverse.dropWhile Cell.isDefault).reverse
+
+/-- rows joined along wrap marks (cells not yet trimmed): a wrapped row is glued to the front of the
+    logical line that the following rows form.  A wrapped last row (excluded by the buffer invariant)
+    still forms a line. -/
+def joinRows : List Line → List (List Cell)
+  | [] => []
+  | l :: ls =>
+    if l.wrapped then
+      match joinRows ls with
+      | [] => [l.cells]
+      | x :: xs => (l.cells ++ x) :: xs
+    else l.cells :: joinRows ls
+
+/-- the logical lines of a list of rows: rows joined along wrap marks, each logical line's trailing
+    default cells removed -/
+def logicalLines (ls : List Line) : List (List Cell) := (joinRows ls).map stripDefault
+
+/-- the cursor's place in the logical text, read off the row structure: the index of its logical
+    line is the number of logical lines completed above the cursor row; the offset is the number of
+    cells of its own logical line in the rows above the cursor row, plus the column.
+    `cur = (col, row)`, `row` relative to the view. -/
+def cursorLogical (b : Buffer) (cur : Nat × Nat) : Nat × Nat :=
+  let above := b.lines.take (b.sb.length + cur.2)
+  let own := above.reverse.takeWhile (fun l => l.wrapped)
+  (above.countP (fun l => !l.wrapped), (own.map Line.len).sum + cur.1)
+
+/-! ### the relation between the logical text before and after a resize -/
+
+/-- two cells "up to blanks": a missing cell (beyond the trimmed text) is a default cell -/
+def cellEq (a b : Option Cell) : Bool :=
+  match a, b with
+  | some x, some y => x == y || (x.isDefault && y.isDefault)
+  | some x, none => x.isDefault
+  | none, some y => y.isDefault
+  | none, none => true
+
+/-- equal up to trailing default cells -/
+def eqUpToBlanks (a b : List Cell) : Bool := stripDefault a == stripDefault b
+
+/-- lines above the cursor's line are unchanged -/
+def aboveOK (L L' : List (List Cell)) (i : Nat) : Bool := L'.take i == L.take i
+
+/-- everything before the cursor in its own line is intact (up to trailing blanks, which matters only
+    when the cursor stands beyond the text) -/
+def beforeOK (L L' : List (List Cell)) (i o : Nat) : Bool :=
+  match L[i]?, L'[i]? with
+  | some a, some b => eqUpToBlanks (b.take o) (a.take o)
+  | _, _ => false
+
+/-- the cursor was on a character of the text: not wrap-pending and inside the trimmed line -/
+def onChar (L : List (List Cell)) (i o : Nat) (pending : Bool) : Bool :=
+  !pending && (match L[i]? with | some a => o < a.length | none => false)
+
+/-- … then it is on that same character afterwards (the cell is compared up to blanks: when the rest
+    of the line was cut below the cursor, a blank under the cursor may have become trailing) -/
+def onCharOK (L L' : List (List Cell)) (i o o' : Nat) : Bool :=
+  o' == o && (match L[i]?, L'[i]? with
+    | some a, some b => cellEq b[o]? a[o]?
+    | _, _ => false)
+
+/-- old lines `as` against new lines `bs`, position by position: each new line is the old one, or the
+    old one cut short — and then it is the last new line (rows are dropped from the bottom only); new
+    lines beyond the old text are blank filler -/
+def keptOrCut : List (List Cell) → List (List Cell) → Bool
+  | _, [] => true
+  | [], b :: bs => b.isEmpty && keptOrCut [] bs
+  | a :: as, b :: bs => (b == a && keptOrCut as bs) || (b.isPrefixOf a && bs.isEmpty)
+
+/-- from the cursor's line on the lines are kept or cut short.  Hence none altered, reordered or
+    invented, and `L'.length ≤ L.length` apart from trailing blank lines. -/
+def afterOK (L L' : List (List Cell)) (i : Nat) : Bool := keptOrCut (L.drop i) (L'.drop i)
+
+/-- the whole relation: `(i,o)`/`(i',o')` the cursor's logical position before/after -/
+def resizeRel (L L' : List (List Cell)) (i o i' o' : Nat) (pending : Bool) : Bool :=
+  i' == i && i < L.length && i < L'.length
+    && aboveOK L L' i && beforeOK L L' i o
+    && (!onChar L i o pending || onCharOK L L' i o o')
+    && afterOK L L' i
+
+/-! ### height-only resize: the rows themselves -/
+
+/-- clear the wrap mark of the last row -/
+def unwrapLast (ls : List Line) : List Line :=
+  match ls.getLast? with
+  | some l => ls.dropLast ++ [{ l with wrapped := false }]
+  | none => []
+
+/-- what a height-only resize (`cols` unchanged) does to the rows: shrinking drops rows from the
+    bottom — as many as the height shrinks by, but never the cursor row or anything above it — and
+    clears the wrap mark of the new last row; growing first reveals scrollback rows and then appends
+    blank rows.  No row is modified otherwise. -/
+def rowsOnlyLines (lines : List Line) (cols rows rows' curRow : Nat) : List Line :=
+  if rows' < rows then
+    let excess := min (rows - rows') (rows - 1 - curRow)
+    if excess = 0 then lines else unwrapLast (lines.take (lines.length - excess))
+  else
+    lines ++ List.replicate ((rows' - rows) - min (lines.length - rows) (rows' - rows))
+      (Line.blank cols Pen.default)
+
+/-- height-only resize: rows as above, the cursor keeps its column and its absolute row -/
+def rowsOnlyOK (b b' : Buffer) (cur cur' : Nat × Nat) : Bool :=
+  b'.lines == rowsOnlyLines b.lines b.cols b.rows b'.rows cur.2
+    && cur'.1 == cur.1 && b'.sb.length + cur'.2 == b.sb.length + cur.2
+
+/-! ### the oracle -/
+
+/-- does C10 speak about this event? -/
+def applies (ev : StepEv) : Bool :=
+  ev.kind == .resize
+    && ev.prev.terminal.activeBufferType == .primary
+    && ev.next.terminal.activeBufferType == .primary
+    && ev.prev.terminal.scrollbackLimit == none
+
+def checkStep (ev : StepEv) : List Verdict :=
+  if !applies ev then [] else
+  let t := ev.prev.terminal
+  let t' := ev.next.terminal
+  let b := t.buffer
+  let b' := t'.buffer
+  let cur := (t.cursor.col, t.cursor.row)
+  let cur' := (t'.cursor.col, t'.cursor.row)
+  let L := logicalLines b.lines
+  let L' := logicalLines b'.lines
+  let (i, o) := cursorLogical b cur
+  let (i', o') := cursorLogical b' cur'
+  let widthChanged := b'.cols != b.cols
+  let changed := widthChanged || b'.rows != b.rows
+  [ check "C10.same-logical-line" changed (i' == i && i < L.length && i < L'.length),
+    check "C10.lines-above-unchanged" (changed && i > 0) (aboveOK L L' i),
+    check "C10.before-cursor-intact" (changed && o > 0) (beforeOK L L' i o),
+    check "C10.same-character" (changed && onChar L i o t.pendingWrap)
+      (!onChar L i o t.pendingWrap || onCharOK L L' i o o'),
+    check "C10.after-cursor-kept-or-cut" changed (afterOK L L' i),
+    check "C10.reflow-keeps-lines-and-cursor" widthChanged (resizeRel L L' i o i' o' t.pendingWrap),
+    check "C10.rows-only" (!widthChanged && b'.rows != b.rows)
+      (widthChanged || rowsOnlyOK b b' cur cur') ]
 
 def checkNew (_cols _rows : Nat) (_lim : Option Nat) (_st : Vt) : List Verdict := []
 
